@@ -79,6 +79,9 @@ type RestAgent struct {
 	// map UUIDs to EIDs and received bundles
 	clients sync.Map // uuid[string] -> bpv7.EndpointID
 	mailbox sync.Map // uuid[string] -> []bpv7.Bundle
+
+	// mailboxMutex guards the read-modify-write sequences on a mailbox entry
+	mailboxMutex sync.Mutex
 }
 
 // NewRestAgent creates a new RESTful Application Agent.
@@ -131,6 +134,7 @@ func (ra *RestAgent) receiveBundleMessage(msg BundleMessage) {
 
 	for _, uuid := range uuids {
 		var bundles []bpv7.Bundle
+		ra.mailboxMutex.Lock()
 		if val, ok := ra.mailbox.Load(uuid); !ok {
 			bundles = []bpv7.Bundle{msg.Bundle}
 		} else {
@@ -138,6 +142,7 @@ func (ra *RestAgent) receiveBundleMessage(msg BundleMessage) {
 		}
 
 		ra.mailbox.Store(uuid, bundles)
+		ra.mailboxMutex.Unlock()
 
 		log.WithFields(log.Fields{
 			"bundle": msg.Bundle.ID().String(),
@@ -206,6 +211,17 @@ func (ra *RestAgent) handleUnregister(w http.ResponseWriter, r *http.Request) {
 	}
 }
 
+// takeMailbox atomically removes and returns the content of some client's inbox.
+func (ra *RestAgent) takeMailbox(uuid string) (val interface{}, ok bool) {
+	ra.mailboxMutex.Lock()
+	defer ra.mailboxMutex.Unlock()
+
+	if val, ok = ra.mailbox.Load(uuid); ok {
+		ra.mailbox.Delete(uuid)
+	}
+	return
+}
+
 // handleFetch returns the bundles from some client's inbox, called by /fetch.
 func (ra *RestAgent) handleFetch(w http.ResponseWriter, r *http.Request) {
 	var (
@@ -216,11 +232,9 @@ func (ra *RestAgent) handleFetch(w http.ResponseWriter, r *http.Request) {
 	if jsonErr := json.NewDecoder(r.Body).Decode(&fetchRequest); jsonErr != nil {
 		log.WithError(jsonErr).Warn("Failed to parse REST fetch request")
 		fetchResponse.Error = jsonErr.Error()
-	} else if val, ok := ra.mailbox.Load(fetchRequest.UUID); ok {
+	} else if val, ok := ra.takeMailbox(fetchRequest.UUID); ok {
 		log.WithField("uuid", fetchRequest.UUID).Info("REST client fetches bundles")
 		fetchResponse.Bundles = val.([]bpv7.Bundle)
-
-		ra.mailbox.Delete(fetchRequest.UUID)
 	} else if !ok {
 		log.WithField("uuid", fetchRequest.UUID).Debug("REST client has no new bundles to fetch")
 		fetchResponse.Bundles = make([]bpv7.Bundle, 0)
